@@ -152,7 +152,7 @@ const BODY_SIZES: [usize; 7] = [11, 255, 256, 257, 1000, 4096, 65537];
 const VERSIONS: [http::Version; 5] = [http::Version::HTTP_09, http::Version::HTTP_10, http::Version::HTTP_11, http::Version::HTTP_2, http::Version::HTTP_3];
 
 fn plain_total() -> u64 {
-    METHODS.len() as u64 * VERSIONS.len() as u64 * header_sets().len() as u64 * 3 * 3 * 2 * N_RESP * 3 * BODY_SIZES.len() as u64
+    METHODS.len() as u64 * VERSIONS.len() as u64 * header_sets().len() as u64 * 4 * 3 * 2 * N_RESP * 3 * BODY_SIZES.len() as u64
 }
 
 fn level_name() -> String {
@@ -193,8 +193,8 @@ fn one_plain(i: u64, hs: &[Vec<(String, Vec<u8>)>], st: &mut Stats) {
     x /= N_RESP;
     let carrier = if x % 2 == 0 { Carrier::Header } else { Carrier::Query };
     x /= 2;
-    let uri_form = x % 3;
-    x /= 3;
+    let uri_form = x % 4;
+    x /= 4;
     let body_kind = x % 3; // 0: (), 1: Vec<u8>, 2: Bytes
     x /= 3;
     let hset = &hs[(x % hs.len() as u64) as usize];
@@ -223,14 +223,25 @@ fn one_plain(i: u64, hs: &[Vec<(String, Vec<u8>)>], st: &mut Stats) {
             plan.url_params = vec![(b"k".to_vec(), b"v w".to_vec()), (b"a".to_vec(), b"".to_vec())];
             plan.wire_query = Some("k=v+w&&a".into());
         }
-        _ => {
+        2 => {
             plan.segs = vec![b"abs".to_vec()];
             plan.url_params = vec![(b"q".to_vec(), b"1".to_vec())];
+        }
+        _ => {
+            // as an HTTP/2 stack hands it over: the host only in the (absolute-form) target, no Host header,
+            // ":authority" in the signed list
+            plan.segs = vec![b"h2".to_vec()];
+            plan.headers.retain(|h| !h.0.eq_ignore_ascii_case("host"));
+            for e in plan.signed.iter_mut() {
+                if e == "host" {
+                    *e = ":authority".into();
+                }
+            }
         }
     }
     let built = build(&plan);
     let mut wire = WireReq::from_wire(&built.wire);
-    if uri_form == 2 {
+    if uri_form >= 2 {
         wire.uri = format!("http://example.amazonaws.com{}", wire.uri);
     }
     let mut cfg = Cfg::basic(now);
@@ -374,7 +385,7 @@ pub fn run(ctx: &Ctx) -> Report {
         } else {
             env::set_log_mode_level(env::LOG_FORMAT, *lvl);
         }
-        let inner = 3 * BODY_SIZES.len() as u64 * N_RESP * 2 * 3 * 3;
+        let inner = 3 * BODY_SIZES.len() as u64 * N_RESP * 2 * 4 * 3;
         let part = par_sweep(total, |i, st| {
             if !thorough && (i / inner) % 3 != (li as u64) % 3 {
                 return;
@@ -390,7 +401,7 @@ pub fn run(ctx: &Ctx) -> Report {
     Report {
         stats: st,
         rule: format!(
-            "accepted (reference-signed) requests: 11 methods (incl. extension methods) x 5 HTTP versions x 4 header multisets (repeated names, non-UTF-8 and empty values, mixed-case names) x body types (), Vec<u8>, Bytes x {} body lengths (11 .. 65537 bytes, around 256) x 3 URI forms (origin, origin with escapes / '+' / '&&', absolute-form) x carrier x 4 principals x 3 session data x {{default, S3, fold}}, the whole product once per logger configuration {:?} (no logger output, or a logger that formats every record at that maximum level{}); returned method, version, URI, header names/values/multiplicity/per-name order, body bytes and principal/session data compared with what was submitted / supplied; plus {} folded form requests (URL x body parameter lists x path spelling x S3 x carrier) per logger configuration: body empty and returned query multiset = URL ⊎ body. states = distinct (principal, session size) returned; Extensions marker recorded, not judged",
+            "accepted (reference-signed) requests: 11 methods (incl. extension methods) x 5 HTTP versions x 4 header multisets (repeated names, non-UTF-8 and empty values, mixed-case names) x body types (), Vec<u8>, Bytes x {} body lengths (11 .. 65537 bytes, around 256) x 4 request-target / host forms (origin, origin with escapes / '+' / '&&', absolute-form, absolute-form without a Host header and ':authority' signed) x carrier x 4 principals x 3 session data x {{default, S3, fold}}, the whole product once per logger configuration {:?} (no logger output, or a logger that formats every record at that maximum level{}); returned method, version, URI, header names/values/multiplicity/per-name order, body bytes and principal/session data compared with what was submitted / supplied; plus {} folded form requests (URL x body parameter lists x path spelling x S3 x carrier) per logger configuration: body empty and returned query multiset = URL ⊎ body. states = distinct (principal, session size) returned; Extensions marker recorded, not judged",
             BODY_SIZES.len(), levels, if thorough { "" } else { "; quick tier: each level covers a different third of the (method, version, header set) combinations, all other dimensions in full" }, n_f
         ),
         bounds: json!({"combinations_per_level": total, "levels": levels.len(), "folded": n_f}),
